@@ -46,7 +46,8 @@ def pats_for(ty, thorough):
     return keep
 
 
-def check_type(chk, F, ty, thorough):
+def check_type(chk, F, ty, thorough, dual_only=False):
+    """dual_only: only the forms whose operands are all dual numbers (owned/borrowed + - * /, compound assignment, Neg, Inv)"""
     pats = presence_patterns(ty)
     for imp in F.impls.values():
         if F.adt_name(imp["self"]) != ty or not imp.get("trait"):
@@ -60,6 +61,8 @@ def check_type(chk, F, ty, thorough):
         rhs_scalar = rhs_t is not None and rhs_t["k"] == "param"
         form = "%s%s<%s%s>" % ("&" if self_ref else "", tr, "&" if rhs_ref else "",
                                "Self" if rhs_dual else ("F" if rhs_scalar else (rhs_t or {}).get("s", "")))
+        if dual_only and not ((tr in OPS and rhs_dual) or (tr in ASSIGN and (rhs_dual or rhs_t is None)) or tr in ("Neg", "Inv")):
+            continue
         if tr in OPS:
             meth, f = OPS[tr]
             body = F.impl_item(imp, meth)
@@ -69,18 +72,18 @@ def check_type(chk, F, ty, thorough):
                     sp = Spec(ty, absent_set("a", pa) | absent_set("b", pb))
                     key = "form|%s|%s|presence=%s%s" % (ty, form, pres_tag(pa), pres_tag(pb) if rhs_dual else "")
                     try:
-                        it = Interp(F, DOMK)
                         if rhs_dual:
-                            r = it.call_body(body, [sp.operand("a", pa), sp.operand("b", pb)])
+                            mk = lambda: [sp.operand("a", pa), sp.operand("b", pb)]
                             want = sp.spec_of_real(f(A, B))
                         elif rhs_scalar:
-                            r = it.call_body(body, [sp.operand("a", pa), Sc(Cc)])
+                            mk = lambda: [sp.operand("a", pa), Sc(Cc)]
                             want = sp.spec_of_real(f(A, Cc))
                         else:
                             chk.undecide(key, "unrecognised right operand type %s" % form, body_loc(F, body))
                             continue
-                        compare_parts(chk, key, "%s equals the dual operation with the scalar lifted to a constant" % form,
-                                      body_loc(F, body), sp, r, want)
+                        for sfx, r, _ in all_paths(F, body, mk):
+                            compare_parts(chk, key + sfx, "%s equals the dual operation with the scalar lifted to a constant" % form,
+                                          body_loc(F, body), sp, r, want)
                     except Unsupported as ex:
                         chk.undecide(key, "unsupported: %s" % ex, body_loc(F, body))
         elif tr in ASSIGN:
@@ -96,16 +99,15 @@ def check_type(chk, F, ty, thorough):
                     sp = Spec(ty, absent_set("a", pa) | absent_set("b", pb))
                     key = "form|%s|%s|presence=%s%s" % (ty, form, pres_tag(pa), pres_tag(pb) if rhs_dual else "")
                     try:
-                        it = Interp(F, DOMK)
-                        cell = [sp.operand("a", pa)]
                         if rhs_dual:
-                            it.call_body(body, [Ref(cell, 0), sp.operand("b", pb)])
+                            mk = lambda: [Ref([sp.operand("a", pa)], 0), sp.operand("b", pb)]
                             want = sp.spec_of_real(f(A, B))
                         else:
-                            it.call_body(body, [Ref(cell, 0), Sc(Cc)])
+                            mk = lambda: [Ref([sp.operand("a", pa)], 0), Sc(Cc)]
                             want = sp.spec_of_real(f(A, Cc))
-                        compare_parts(chk, key, "%s updates self to the result of the binary operation" % form,
-                                      body_loc(F, body), sp, cell[0], want)
+                        for sfx, _, args in all_paths(F, body, mk):
+                            compare_parts(chk, key + sfx, "%s updates self to the result of the binary operation" % form,
+                                          body_loc(F, body), sp, args[0].c[0], want)
                     except Unsupported as ex:
                         chk.undecide(key, "unsupported: %s" % ex, body_loc(F, body))
         elif tr == "Neg":
@@ -115,8 +117,8 @@ def check_type(chk, F, ty, thorough):
                 sp = Spec(ty, absent_set("a", pa))
                 key = "form|%s|%sNeg|presence=%s" % (ty, "&" if self_ref else "", pres_tag(pa))
                 try:
-                    r = Interp(F, DOMK).call_body(body, [sp.operand("a", pa)])
-                    compare_parts(chk, key, "negation negates every part", body_loc(F, body), sp, r, sp.spec_of_real(-A))
+                    for sfx, r, _ in all_paths(F, body, lambda: [sp.operand("a", pa)]):
+                        compare_parts(chk, key + sfx, "negation negates every part", body_loc(F, body), sp, r, sp.spec_of_real(-A))
                 except Unsupported as ex:
                     chk.undecide(key, "unsupported: %s" % ex, body_loc(F, body))
         elif tr == "Inv":
@@ -126,8 +128,8 @@ def check_type(chk, F, ty, thorough):
                 sp = Spec(ty, absent_set("a", pa))
                 key = "form|%s|Inv|presence=%s" % (ty, pres_tag(pa))
                 try:
-                    r = Interp(F, DOMK).call_body(body, [sp.operand("a", pa)])
-                    compare_parts(chk, key, "inv is the reciprocal", body_loc(F, body), sp, r, sp.spec_of_real(A.recip()))
+                    for sfx, r, _ in all_paths(F, body, lambda: [sp.operand("a", pa)]):
+                        compare_parts(chk, key + sfx, "inv is the reciprocal", body_loc(F, body), sp, r, sp.spec_of_real(A.recip()))
                 except Unsupported as ex:
                     chk.undecide(key, "unsupported: %s" % ex, body_loc(F, body))
         elif tr in ("Sum", "Product"):
@@ -141,10 +143,10 @@ def check_type(chk, F, ty, thorough):
                 sp = Spec(ty, absent_set("a", pa) | absent_set("b", pb))
                 key = "form|%s|%s<%sSelf>|presence=%s%s" % (ty, tr, "&" if byref else "", pres_tag(pa), pres_tag(pb))
                 try:
-                    r = Interp(F, DOMK).call_body(body, [IterV([sp.operand("a", pa), sp.operand("b", pb)])])
                     want = sp.spec_of_real(A + B if tr == "Sum" else A * B)
-                    compare_parts(chk, key, "%s folds the items with %s starting from the neutral element" % (
-                        tr, "+" if tr == "Sum" else "*"), body_loc(F, body), sp, r, want)
+                    for sfx, r, _ in all_paths(F, body, lambda: [IterV([sp.operand("a", pa), sp.operand("b", pb)])]):
+                        compare_parts(chk, key + sfx, "%s folds the items with %s starting from the neutral element" % (
+                            tr, "+" if tr == "Sum" else "*"), body_loc(F, body), sp, r, want)
                 except Unsupported as ex:
                     chk.undecide(key, "unsupported: %s" % ex, body_loc(F, body))
             try:
@@ -252,10 +254,12 @@ def check_mul_add_default(chk, F):
     chk.count("default methods")
     x, a, b = Poly.var("x"), Poly.var("a"), Poly.var("b")
     try:
-        r = unref(Interp(F, DOMK).call_body(body, [Sc(x), Sc(a), Sc(b)]))
-        ok = isinstance(r, Sc) and equal(r.v, x * a + b)
-        chk.ob("form|DualNum::mul_add", ok, "default mul_add is self*a + b (real-function level; operators verified per type)",
-               body_loc(F, body), found=r.v.show() if isinstance(r, Sc) else repr(r), required=(x * a + b).show())
+        for sfx, r, _ in all_paths(F, body, lambda: [Sc(x), Sc(a), Sc(b)]):
+            r = unref(r)
+            ok = isinstance(r, Sc) and equal(r.v, x * a + b)
+            chk.ob("form|DualNum::mul_add" + sfx, ok, "default mul_add is self*a + b on every path (a predicate on a dual number only "
+                   "inspects its real part; operators verified per type)",
+                   body_loc(F, body), found=r.v.show() if isinstance(r, Sc) else repr(r), required=(x * a + b).show())
     except Unsupported as ex:
         chk.undecide("form|DualNum::mul_add", "unsupported: %s" % ex, body_loc(F, body))
     # no type overrides the default with something different: any override is checked end-to-end
